@@ -258,6 +258,33 @@ pub fn replay(input: &str, out: &mut Out) {
     let mut devclasses: std::collections::BTreeMap<String, u64> = Default::default();
     for (i, c) in read_lines(input) {
         n += 1;
+        if c["k"].as_str().unwrap().starts_with("rd") {
+            // reader only: the X.691 encoding of a number the 64-bit API cannot hold must be refused, never wrapped
+            let (eb, el) = expected_image(&c);
+            let k = c["k"].as_str().unwrap().to_string();
+            let r = guarded(|| -> Result<i128, asn1rs::protocol::per::Error> {
+                let mut b = BitBuffer::from_bits(eb.clone(), el);
+                Ok(if k == "rdscwn" { b.read_semi_constrained_whole_number(0)? as i128 } else { b.read_normally_small_non_negative_whole_number()? as i128 })
+            });
+            nontrivial += 1;
+            let (gk, why) = match r {
+                Ok(Ok(x)) => ("ok", Some(format!("reader returned the wrapped value {} for the X.691 encoding of {}", x, big(&c["v"])))),
+                Ok(Err(_)) => ("err", None),
+                Err(p) => ("panic", Some(format!("reader panicked: {}", p))),
+            };
+            if let Some(why) = why {
+                bad += 1;
+                let sig = format!("{} spec=refuse impl={}", k, gk);
+                let cnt = classes.entry(sig.clone()).or_insert(0);
+                *cnt += 1;
+                if *cnt <= 8 {
+                    let mut cc = c.clone();
+                    cc.as_object_mut().unwrap().insert("v_dec".into(), json!(big(&c["v"]).to_string()));
+                    out.line(&json!({"line": i, "sig": sig, "case": cc, "why": why}));
+                }
+            }
+            continue;
+        }
         let exp_ok = c["ok"].as_bool().unwrap();
         let devname = c.get("dev").and_then(|d| d.as_str()).unwrap_or("");
         let got = write_case(&c);
